@@ -22,8 +22,7 @@ package zklogstar
 
 //@ func (*Proof).Verify
 //@   nopanic[C05]
-//@   modifies nothing
-//@   allocates
+//@   modifies hstate(hash)
 //@   requires hash != nil && hash.h != nil && public.C != nil && public.X != nil && public.G != nil && pkok(public.Prover) && pedok(public.Aux) && (p != nil ==> shaped(p))
 
 //@ func challenge
